@@ -74,12 +74,22 @@ func VerifC14_Plan(n, k, win, pat, devPat, order int) {
 // a network channel, so the plan must take the device to the same set as before - and the planner must get there
 // without panicking. pos 0: the stale indices come last in the device list, 1: first, 2: descending list.
 func VerifC14_PlanBeyond(n, k, ext, pos int) {
-	b, in, _ := c15State(n, 0, 0, k, -1, 0)
+	win := -1
+	if _, in0, _ := verifBand(n, 0, 0); len(in0.uplinkChannels) > 16 {
+		// 72 / 96-channel plans: the last four channels (and the stale indices) symbolic, the others enabled on
+		// both sides
+		win = len(in0.uplinkChannels) - 4
+	}
+	b, in, _ := c15State(n, 0, 0, k, win, 0)
 	N := len(in.uplinkChannels)
 	member := make([]bool, N+ext)
 	for i := 0; i < N+ext; i++ {
 		if i > N && i < N+ext-1 && ext > 4 {
 			continue // long reach: only the first and the last stale index are symbolic
+		}
+		if i < N && !c15Sym(i, N, win) {
+			member[i] = true
+			continue
 		}
 		member[i] = verifNondetBool("deviceHas")
 	}
